@@ -3129,4 +3129,145 @@ theorem clauseLookup_sound {s : State} (op : Op) : clauseLookup s op (step s op)
   | _ => rfl
 
 
+theorem updateOk_sound (s : State) (l : List ObjId) (n : String) (v : Rat) (a : State)
+    (ha : ∀ t ∈ l, a.heap.get t = (setParameterValue s.heap l n v).heap.get t) :
+    updateOk s l n v (.ofErr (setParameterValue s.heap l n v).err) a = true := by
+  have sp := setParameterValue_spec s.heap l n v
+  unfold updateOk
+  cases e : find? s.heap l n with
+  | none => simp only [e] at sp; simp [sp.1, Out.ofErr]
+  | some t =>
+    simp only [e] at sp
+    have ht := (find?_some e).1
+    by_cases c : (s.heap.get t).rejects v = true ∧ v ≠ (s.heap.get t).value
+    · rw [if_pos c] at sp
+      simp [c.1, c.2, sp.1, Out.ofErr]
+    · rw [if_neg c] at sp
+      have c' : ((s.heap.get t).rejects v && decide (v ≠ (s.heap.get t).value)) = false := by
+        simpa [-ne_eq] using c
+      simp only [c', sp.1, Out.ofErr, ha t ht, sp.2.1]
+      simp
+
+theorem takeWhile_erase_congr (nm : List String) (n : String) (rest : List String) (hn : n ∉ rest) :
+    rest.takeWhile (fun x => (nm.erase n).contains x) = rest.takeWhile (fun x => nm.contains x) := by
+  induction rest with
+  | nil => rfl
+  | cons a t ih =>
+    have hne : a ≠ n := fun c => hn (c ▸ List.mem_cons_self ..)
+    have : (nm.erase n).contains a = nm.contains a := by
+      rw [Bool.eq_iff_iff]; simp [List.mem_erase_of_ne hne]
+    simp only [List.takeWhile_cons, this]
+    rw [ih (fun c => hn (List.mem_cons_of_mem _ c))]
+
+theorem deleteParameters_spec (h : Store) (must : Bool) (ns : List String) (l : List ObjId) (nd : ns.Nodup) :
+    let nm := names h l
+    let pre := if must then ns.takeWhile (fun n => nm.contains n) else ns
+    names h (deleteParameters h must l ns).1 = pre.foldl (fun acc n => acc.erase n) nm ∧
+    (deleteParameters h must l ns).2 = if pre.length = ns.length then none else some .notfound := by
+  induction ns generalizing l with
+  | nil => cases must <;> simp [deleteParameters]
+  | cons n rest ih =>
+    have nd' := List.nodup_cons.1 nd
+    obtain ⟨a, b⟩ := deleteParameter_names h l n
+    unfold deleteParameters
+    cases e : deleteParameter h l n with
+    | ok l' =>
+      obtain ⟨a1, a2⟩ := a l' e
+      obtain ⟨i1, i2⟩ := ih l' nd'.2
+      have hc : (names h l).contains n = true := by simpa using a2
+      dsimp only at i1 i2 ⊢
+      rw [i1, i2, a1]
+      cases must
+      · simp
+      · simp only [if_true, List.takeWhile_cons, hc, List.foldl_cons, List.length_cons]
+        rw [takeWhile_erase_congr _ _ _ nd'.1]
+        simp
+    | error x =>
+      obtain ⟨b1, b2⟩ := b x e
+      have hc : (names h l).contains n = false := by simpa using b2
+      cases must
+      · obtain ⟨i1, i2⟩ := ih l nd'.2
+        dsimp only at i1 i2 ⊢
+        simp only [Bool.false_eq_true, if_false] at i1 i2 ⊢
+        rw [i1, i2]
+        simp [List.erase_of_not_mem b2]
+      · simp [List.takeWhile_cons, b2, b1]
+
+
+theorem setParameterValue_names (h : Store) (l : List ObjId) (n : String) (v : Rat) :
+    ∀ i, nameOf (setParameterValue h l n v).heap i = nameOf h i := by
+  intro i
+  unfold setParameterValue
+  split
+  · rfl
+  · next t _ =>
+    split
+    · next q hq =>
+      have := (setValue_ok hq).1
+      by_cases c : i = t
+      · subst c; simp [nameOf, this]
+      · simp [nameOf, c]
+    · rfl
+
+theorem apSetParameterValue_spec (h : Store) (l : List ObjId) (pre n : String) (v : Rat) (vl : Valid h l) :
+    (apSetParameterValue h l pre n v).err = (setParameterValue h l (pre ++ n) v).err ∧
+    ∀ t ∈ l, (apSetParameterValue h l pre n v).heap.get t = (setParameterValue h l (pre ++ n) v).heap.get t := by
+  unfold apSetParameterValue; dsimp only
+  cases e1 : (setParameterValue h l (pre ++ n) v).err with
+  | some x => exact ⟨rfl, fun _ _ => rfl⟩
+  | none =>
+    have hf : find? h l (pre ++ n) ≠ none := by
+      intro c; simp [setParameterValue, c] at e1
+    have hs := createSubListNames_single (h := (setParameterValue h l (pre ++ n) v).heap) (l := l) (n := pre ++ n)
+      (by rw [find?_congr (fun i _ => setParameterValue_names h l (pre ++ n) v i)]; exact hf)
+    simp only [hs]
+    refine ⟨trivial, fun t ht => ?_⟩
+    have f := createSubListNames_frame l [pre ++ n] (setParameterValue h l (pre ++ n) v).heap []
+    exact f.same t (Nat.lt_of_lt_of_le (vl t ht) (setParameterValue_pres h l (pre ++ n) v).next_le) (by simp)
+
+theorem clauseUpdate_sound {s : State} (inv : Inv s) (op : Op) :
+    clauseUpdate s op (step s op).2.out (step s op).1 = true := by
+  cases op with
+  | setValue k nm v => exact updateOk_sound s _ nm v _ (fun _ _ => rfl)
+  | apSetValue k nm v =>
+    obtain ⟨h1, h2⟩ := apSetParameterValue_spec s.heap (s.lists k) (s.pre k) nm v (inv.wf k)
+    simp only [clauseUpdate, step, stepAR]
+    have key := updateOk_sound s (s.lists k) (s.pre k ++ nm) v
+      (s.withHeap (apSetParameterValue s.heap (s.lists k) (s.pre k) nm v).heap) h2
+    rw [← h1] at key
+    cases hr : (apSetParameterValue s.heap (s.lists k) (s.pre k) nm v).err <;>
+      simp only [hr, Out.ofErr] at key ⊢ <;> exact key
+  | share k j nm =>
+    simp only [clauseUpdate, step]
+    cases e : find? s.heap (s.lists j) nm with
+    | none => rfl
+    | some i =>
+      have hn := (find?_some e).2
+      by_cases hc : hasParameter s.heap (s.lists k) nm = true
+      · simp only [stepLR, shareParameter, hn, hc, if_true]
+        exact updateOk_sound s (s.lists k) nm (s.heap.get i).value _ (fun _ _ => rfl)
+      · simp [hc]
+  | _ => rfl
+
+theorem clauseDeleteNames_sound {s : State} (op : Op) :
+    clauseDeleteNames s op (step s op).2.out (step s op).1 = true := by
+  cases op with
+  | delNames k ns must =>
+    simp only [clauseDeleteNames, step]
+    by_cases hns : ns.Nodup
+    swap
+    · simp [hns]
+    obtain ⟨i1, i2⟩ := deleteParameters_spec s.heap must ns (s.lists k) hns
+    cases must
+    · simp only [Bool.false_eq_true, if_false] at i1 i2
+      simp [State.setList, i1, i2, hns, Out.ofErr]
+    · simp only [if_true] at i1 i2
+      simp only [State.setList, if_true, i1, i2, hns, decide_true, Bool.not_true, Bool.false_or, beq_self_eq_true,
+        Bool.true_and]
+      split
+      · next hl => simp only [List.contains_eq_mem] at hl; simp [hl, Out.ofErr]
+      · next hl => simp only [List.contains_eq_mem] at hl; simp [hl, Out.ofErr]
+  | _ => rfl
+
+
 end Bpp.ParamList
